@@ -161,7 +161,26 @@ func vmMaskedDigest(srv *ircserver.IRCServer, sessions map[uint64]bool) string {
 		return "unmarshalable"
 	}
 	d, _ := vfStateDigest(out)
-	return d
+	// ... and the independent field dump (VerifDump), same three fields of the same sessions masked
+	dump, _ := vfDumpParts(srv)
+	recs := strings.Split(dump, ";")
+	for k, rec := range recs {
+		f := strings.Split(rec, "/")
+		if len(f) < 4 || f[0] != "S" || f[2] != "0" {
+			continue
+		}
+		id, err := strconv.ParseUint(f[1], 10, 64)
+		if err != nil || !sessions[id] {
+			continue
+		}
+		for n, fld := range f {
+			if strings.HasPrefix(fld, "la=") || strings.HasPrefix(fld, "lnp=") || strings.HasPrefix(fld, "cmid=") {
+				f[n] = fld[:strings.Index(fld, "=")+1] + "masked"
+			}
+		}
+		recs[k] = strings.Join(f, "/")
+	}
+	return d + "." + vfShort([]byte(strings.Join(recs, ";")))[:10]
 }
 
 type vmReplayResult struct {
